@@ -145,6 +145,8 @@ def c06_passes(tier, sc):
     golden = _os.path.join(_B.VERIF, 'golden', 'digests.txt')
     ng = sum(1 for _ in open(golden)) if _os.path.exists(golden) else 0
     return [Pass('asan', 'h_fits.asan', 'C06', n(tier, 240, 3000, sc)),
+            # serialising a table with a history (permuted, convolved, re-read, moved ...) gives the bytes a freshly loaded equal table gives
+            Pass('hist', 'h_misc.asan', 'C06hist', n(tier, 400, 4000, sc), stall_s=300),
             Pass('golden', 'h_fits.asan', 'C06golden', ng, args=['--golden', golden, '--datadir', _os.path.join(_B.REPO, 'test', 'test_data')], chunk=max(1, ng))]
 
 
@@ -155,8 +157,8 @@ PROPS['C06'] = dict(
                'compare equal and evaluate identically, on disk and in memory; (3) the bytes the library wrote are decoded by a cfitsio-free '
                'decoder that insists on the documented layout. Shipped reference files are compared with committed digests.',
     level_note=NOTE_COMMON,
-    technique='runtime monitor: independent FITS encoder/decoder + bitwise round-trip oracle + golden digests, under ASan/UBSan',
-    targets=[T('h_fits.cpp', 'asan')],
+    technique='runtime monitor: independent FITS encoder/decoder + bitwise round-trip oracle + golden digests + history-independence differential (bytes written by a table with a random history vs. by its freshly loaded twin), under ASan/UBSan',
+    targets=[T('h_fits.cpp', 'asan'), T('h_misc.cpp', 'asan')],
     passes=c06_passes,
     level='exploration',
     rule='case = random table (1-9 dims, pairwise different axis lengths where possible, orders 0-5, special-value coefficients, random extents/periods, '
@@ -164,7 +166,7 @@ PROPS['C06'] = dict(
          'write->raw-decode; distinct_nontrivial counts distinct (table,backend) round trips plus shipped files',
     assumptions=ASSUME_COMMON + ['the cfitsio-free decoder implements the documented layout only (IMAGE extensions, BITPIX -32/-64)'],
     require={'any': {'roundtrips-disk': 50, 'roundtrips-memory': 50, 'layout-decodes': 150, 'independent-raw-files-read': 150, 'golden-files': 10,
-                     'tables-with-pairwise-different-axes': 100}},
+                     'tables-with-pairwise-different-axes': 100, 'hist:judged-serialisations': 300}},
 )
 
 
@@ -376,45 +378,50 @@ PROPS['C14'] = dict(
                'piecewise between all breakpoints with 8-point Gauss-Legendre (exact for the polynomial degrees involved) and compared with the evaluated convolved table at points across '
                'the new knot range incl. knots and margins; plus exact checks of the new order, the new knot vector (sorted pairwise sums), untouched other dimensions, well-formedness and the C wrapper.',
     level_note=NOTE_COMMON + '; bound K=400 on |lib-integral|/(2^-24 M) fixed from the measured error distribution (see errratio counters)',
-    technique='runtime monitor: quadrature oracle for the convolution integral + structural invariants, under ASan/UBSan; concurrent independent convolutions compared with sequential ones, under ThreadSanitizer',
+    technique='runtime monitor: quadrature oracle for the convolution integral + structural invariants, under ASan/UBSan; history-independence differential (convolution of a table with a random history vs. of its freshly loaded twin, bit for bit); concurrent independent convolutions compared with sequential ones, under ThreadSanitizer',
     targets=[T('h_misc.cpp', 'asan'), T('h_misc.cpp', 'prod'), T('h_misc.cpp', 'tsan')],
     passes=lambda tier, sc: [Pass('asan', 'h_misc.asan', 'C14', n(tier, 360, 1500, sc), stall_s=300),
                              Pass('prod', 'h_misc.prod', 'C14', n(tier, 900, 3000, sc), stall_s=300),
                              # four threads convolving their own tables at once: same result as sequentially (prod) and no report from ThreadSanitizer
                              Pass('thr', 'h_misc.prod', 'C14thr', n(tier, 200, 1500, sc), stall_s=300),
+                             # the convolution of a table with a history (permuted, convolved, re-read, moved ...) = the convolution of a freshly loaded equal table, bit for bit
+                             Pass('hist', 'h_misc.asan', 'C14hist', n(tier, 400, 4000, sc), stall_s=300),
                              c14_tsan(tier, sc)],
     level='exploration',
     rule='case = (table of 1-4 dims, order 0-5 in the convolved dimension, any dimension index, irregular knots, kernel of 2-6 increasing knots, symmetric or not, 0.05x-5x the knot spacing) x 10-60 points; '
          'distinct_nontrivial counts distinct (table, kernel, point) triples with M>0',
     assumptions=ASSUME_COMMON,
-    require={'any': {'points-checked': 1500, 'C-wrapper-comparisons': 100, 'order:0': 5, 'order:5': 5, 'concurrent-convolution-rounds': 150, 'axis-unit:1e-09': 20, 'aliasing-kernel-comparisons': 40}},
+    require={'any': {'points-checked': 1500, 'C-wrapper-comparisons': 100, 'order:0': 5, 'order:5': 5, 'concurrent-convolution-rounds': 150, 'axis-unit:1e-09': 20, 'aliasing-kernel-comparisons': 40, 'hist:judged-convolutions': 200}},
 )
 PROPS['C15'] = dict(
     level_text='Exhaustive over all 153 permutations of 1-5 dimensions (plus sampled 6-d ones) on tables whose axes have pairwise different lengths, orders, extents and periods: every per-dimension attribute, '
                'exact relocation of every coefficient, stride consistency, evaluation at permuted points against the reference, restoration by the inverse permutation, rejection of every malformed-argument shape '
                'with the table unchanged, and the C wrapper.',
     level_note=NOTE_COMMON,
-    technique='runtime monitor: exhaustive permutation enumeration (<=5 dims) with exact relocation oracle, under ASan/UBSan',
+    technique='runtime monitor: exhaustive permutation enumeration (<=5 dims) with exact relocation oracle, plus history-independence differential (permutation of a table with a random history vs. of its freshly loaded twin, bit for bit), under ASan/UBSan',
     targets=[T('h_misc.cpp', 'asan')],
-    passes=lambda tier, sc: [Pass('asan', 'h_misc.asan', 'C15', 153 + n(tier, 300, 1200, sc), stall_s=300)],
+    passes=lambda tier, sc: [Pass('asan', 'h_misc.asan', 'C15', 153 + n(tier, 300, 1200, sc), stall_s=300),
+                             # permuting a table with a history = permuting a freshly loaded equal table, bit for bit (incl. extents, periods, strides, aux keys, evaluation)
+                             Pass('hist', 'h_misc.asan', 'C15hist', n(tier, 600, 6000, sc), stall_s=300)],
     level='exploration',
     rule='case = one permutation (cases 0..152 enumerate all permutations of 1..5 dimensions, the rest are random 6-d permutations) applied to a fresh table; distinct_nontrivial counts distinct permutations',
     assumptions=ASSUME_COMMON,
-    require={'any': {'permutations': 153, 'inverse-checks': 153, 'malformed-arguments-tried': 800, 'C-wrapper-comparisons': 153}},
+    require={'any': {'permutations': 153, 'inverse-checks': 153, 'malformed-arguments-tried': 800, 'C-wrapper-comparisons': 153, 'hist:judged-permutations': 400}},
 )
 PROPS['C17'] = dict(
     level_text='Exploration: grid evaluation of sparse-coefficient tables (50-95% exact zeros, whole zero edge hyperplanes) on arbitrary grids (unsorted, repeated, outside, on-knot, single-point axes) compared entry by entry '
                'with pointwise evaluation and with the long-double reference (so a disagreement is attributed to the side that is wrong); index ranges, index bounds, duplicates and unlisted points are checked; C wrapper compared bitwise.',
     level_note=NOTE_COMMON,
-    technique='runtime differential monitor (grid vs pointwise vs reference), under ASan/UBSan; concurrent independent grid evaluations compared with sequential ones, under ThreadSanitizer',
+    technique='runtime differential monitor (grid vs pointwise vs reference), under ASan/UBSan; history-independence differential (grid evaluation of a table with a random history vs. of its freshly loaded twin); concurrent independent grid evaluations compared with sequential ones, under ThreadSanitizer',
     targets=[T('h_misc.cpp', 'asan'), T('h_misc.cpp', 'prod'), T('h_misc.cpp', 'tsan')],
     passes=lambda tier, sc: [Pass('asan', 'h_misc.asan', 'C17', n(tier, 3000, 12000, sc), stall_s=300),
                              Pass('thr', 'h_misc.prod', 'C17thr', n(tier, 200, 1500, sc), stall_s=300),
+                             Pass('hist', 'h_misc.asan', 'C17hist', n(tier, 400, 4000, sc), stall_s=300),
                              c17_tsan(tier, sc)],
     level='exploration',
     rule='case = (sparse table of 1-4 dims with mixed orders 0-4 and repeated knots, grid) ; every grid point strictly inside the knot range is judged; distinct_nontrivial counts distinct (table, grid point) pairs judged',
     assumptions=ASSUME_COMMON,
-    require={'any': {'grid-points-checked': 3000, 'grid-points-unlisted': 100, 'tables-with-zero-edge-hyperplanes': 50, 'C-wrapper-comparisons': 200, 'concurrent-grideval-rounds': 150, 'long-grids': 5, 'tables-with-all-coefficients-zero': 30}},
+    require={'any': {'grid-points-checked': 3000, 'grid-points-unlisted': 100, 'tables-with-zero-edge-hyperplanes': 50, 'C-wrapper-comparisons': 200, 'concurrent-grideval-rounds': 150, 'long-grids': 5, 'tables-with-all-coefficients-zero': 30, 'hist:judged-grid-evaluations': 300}},
 )
 
 
